@@ -47,6 +47,13 @@ const mxPrelude = `
 (set 'mx-two (lambda (a b) (list a b)))
 (set 'mx-true (lambda (&rest xs) true))
 (set 'mx-false (lambda (&rest xs) false))
+(set 'mx-dangling-rest (lambda (x &rest) x))
+(set 'mx-bare-rest (lambda (&rest) 1))
+(set 'mx-dangling-optional (lambda (x &optional) x))
+(set 'mx-bare-key (lambda (&key) 1))
+(set 'mx-rest-two (lambda (&rest a b) a))
+(set 'mx-opt-rest (lambda (a &optional b &rest r) (list a b r)))
+(set 'mx-opt-key (lambda (&optional a &key k) (list a k)))
 (set 'mx-num (lambda (&rest xs) 1))
 (deftype mx-type (v) v)
 `
@@ -230,6 +237,15 @@ func mxPool(full bool) []mxKind {
 		{"fun-two", mxGlobal("mx-two")},
 		{"fun-true", mxGlobal("mx-true")},
 		{"fun-false", mxGlobal("mx-false")},
+		// function values whose formal lists are malformed or unusual: lambda does not check them, the binder does at call
+		// time - and every builtin that READS a function's formals (compose, flip, curry ...) meets them as they are
+		{"fun-dangling-rest", mxGlobal("mx-dangling-rest")},
+		{"fun-bare-rest", mxGlobal("mx-bare-rest")},
+		{"fun-dangling-optional", mxGlobal("mx-dangling-optional")},
+		{"fun-bare-key", mxGlobal("mx-bare-key")},
+		{"fun-rest-two", mxGlobal("mx-rest-two")},
+		{"fun-opt-rest", mxGlobal("mx-opt-rest")},
+		{"fun-opt-key", mxGlobal("mx-opt-key")},
 		{"fun-num", mxGlobal("mx-num")},
 		{"fun-macro", mxGlobal("defun")},
 		{"fun-op", mxGlobal("if")},
